@@ -41,10 +41,7 @@ var errReset = errors.New("read tcp: connection reset by peer")
 func runC08(c *engine.Ctx) {
 	c.Rule = "case = one upload (PUT object or upload-part) from three complete factor products: Content-MD5 form x declared length x framing x integrity x start state x backend; key length x metadata size x limit; body-reader fault position j=0..len x fault kind x digest; oracle: accepted exactly when digest/length/limits allow, rejected with an applicable S3 code, and after every rejected upload the full snapshot (object, metadata, listing, pending upload parts) equals the snapshot before; distinct_nontrivial = distinct rejected cases whose state was verified unchanged"
 	c.Assumptions = append(c.Assumptions, "which code a doubly-invalid request gets is not fixed (any applicable code)", "a plain body longer than its declared length cannot be produced through net/http and is not generated", "metadata limit: user metadata >= limit must be rejected, total <= limit-200 must be accepted, in between only 'rejected => MetadataTooLarge and unchanged'")
-	kinds := drv.MemFsKinds
-	if !quick(c) {
-		kinds = drv.AllKinds
-	}
+	kinds := drv.AllKinds
 	var cases []c08Case
 	for _, k := range kinds {
 		for _, target := range []string{"object", "part"} {
